@@ -357,7 +357,9 @@ namespace cds { namespace algo {
             assert( !eos());
             assert( is_correct( count ));
 
-            int_type result = ( number_ >> shift_ ) & (( 1 << count ) - 1 );
+            // the mask is built in 64 bits: "( 1 << count ) - 1" in int is wrong (and undefined) for count >= 31
+            uint64_t const mask = count < 64 ? ( uint64_t( 1 ) << count ) - 1 : ~uint64_t( 0 );
+            int_type result = static_cast<int_type>(( static_cast<uint64_t>( number_ ) >> shift_ ) & mask );
             shift_ += count;
 
             return result;
